@@ -1313,6 +1313,24 @@ func (e *exec) doAdd(o Op) {
 			}
 		}
 	}
+	widened := false
+	if l := ms.Last; l != nil && t == l.T && v.Kind != tsdbmodel.KFloat && !v.IsStale() && tsdbmodel.ValueEqual(v, *l) {
+		// Known finding (C02): when the chunk's bucket layout is wider than the appended histogram's, the head widens
+		// its own copy in place (empty buckets inserted); re-appending the bit-identical histogram at the same timestamp
+		// is then answered "duplicate" because the comparison is exact about empty buckets. Whether that happened shows
+		// in what the chunk returns for that timestamp.
+		if cur, err := querySamples(e.db, t, t, labels.MustNewMatcher(labels.MatchEqual, "s", lset.Get("s")), allMatcher); err == nil {
+			for _, x := range cur[lset.String()] {
+				if x.T == t && x.NumBuckets() != v.NumBuckets() {
+					widened = true
+				}
+			}
+		}
+		if widened && e.cfg.KF != TagGaugeReappend {
+			e.res.Count("skipped:"+TagGaugeReappend, 1)
+			return
+		}
+	}
 	if e.cfg.KF != tsdbmodel.TagTombHides && (e.covered(o.S, t) || ms.InHeadDeleted(t)) {
 		// Known finding: a head tombstone hides samples appended into its range after the deletion.
 		e.res.Count("skipped:"+tsdbmodel.TagTombHides, 1)
@@ -1421,6 +1439,14 @@ func (e *exec) doAdd(o Op) {
 				agree = true
 			}
 		}
+	}
+	if !agree && widened && e.cfg.KF == TagGaugeReappend && out == tsdbmodel.Duplicate {
+		e.res.Count("admission_mismatch", 1)
+		if e.prop == "C02" {
+			e.fail("admission", "known:"+TagGaugeReappend, "op %d: re-append of the bit-identical gauge histogram %s at the newest timestamp of series %d answered %q", e.opIdx, v, o.S, out)
+			return
+		}
+		agree = true
 	}
 	if !agree {
 		e.res.Count("admission_mismatch", 1)
@@ -1552,6 +1578,10 @@ func (e *exec) doCommit(i int) {
 	e.res.Count("samples_dropped_at_commit", int64(eff.Dropped))
 	e.res.Count("samples_noop", int64(eff.NoOp))
 }
+
+// TagGaugeReappend is the known finding (C02): identical re-append of a histogram rejected as duplicate after the head
+// widened its stored copy in place (backward inserts: the chunk has buckets the histogram lacks).
+const TagGaugeReappend = "identical-histogram-reappend-rejected-after-in-place-widening"
 
 // Known-finding tags (see known_findings.json).
 const (
